@@ -283,9 +283,9 @@ func (f *Factory) Bin(op Op, a, b *Term) *Term {
 			if b.Val == 0 {
 				return a
 			}
-			k := int(b.Val)
-			if k >= w {
-				k = w - 1
+			k := w - 1
+			if b.Val < uint64(w) {
+				k = int(b.Val)
 			}
 			return f.Sext(f.Extract(a, w-1, k), w)
 		}
@@ -649,6 +649,28 @@ func (f *Factory) Eq(a, b *Term) *Term {
 	return f.mk(&Term{Op: OpEq, W: 0, Args: []*Term{a, b}})
 }
 
+// urange returns a sound unsigned interval [lo, hi] for a bit-vector term of width <= 64.
+func urange(t *Term) (uint64, uint64) {
+	if t.IsConst() {
+		return t.Val, t.Val
+	}
+	switch t.Op {
+	case OpZext:
+		return urange(t.Args[0])
+	case OpConcat:
+		if t.W <= 64 {
+			lw := uint(t.Args[1].W)
+			hlo, hhi := urange(t.Args[0])
+			llo, lhi := urange(t.Args[1])
+			return hlo<<lw | llo, hhi<<lw | lhi
+		}
+	}
+	if hz := highZero(t); hz > 0 && hz < t.W {
+		return 0, mask(t.W - hz)
+	}
+	return 0, mask(t.W)
+}
+
 func (f *Factory) Cmp(op Op, a, b *Term) *Term {
 	if a.W != b.W {
 		panic("term: Cmp width mismatch")
@@ -667,6 +689,35 @@ func (f *Factory) Cmp(op Op, a, b *Term) *Term {
 	}
 	if a == b {
 		return f.Bool(op == OpUle || op == OpSle)
+	}
+	// unsigned interval reasoning (constants, zero-extensions, concat with a constant high part)
+	if a.W > 0 && a.W <= 64 {
+		alo, ahi := urange(a)
+		blo, bhi := urange(b)
+		switch op {
+		case OpUlt:
+			if ahi < blo {
+				return f.true_
+			}
+			if alo >= bhi {
+				return f.false
+			}
+		case OpUle:
+			if ahi <= blo {
+				return f.true_
+			}
+			if alo > bhi {
+				return f.false
+			}
+		case OpSlt, OpSle:
+			top := uint64(1) << uint(a.W-1)
+			if ahi < top && bhi < top && !(highZero(a) > 0 && highZero(b) > 0) {
+				if op == OpSlt {
+					return f.Cmp(OpUlt, a, b)
+				}
+				return f.Cmp(OpUle, a, b)
+			}
+		}
 	}
 	switch op {
 	case OpUlt:
